@@ -8,6 +8,7 @@ import (
 	"go/token"
 	"go/types"
 	"math/big"
+	"sort"
 	"strings"
 
 	"golang.org/x/tools/go/ssa"
@@ -26,7 +27,18 @@ type Scope struct {
 	pkg   *ssa.Package
 	depth int
 	freshBound int
+	anyLoop bool // names may denote the loop variables of any loop whose iteration is in progress
+	skolem int  // 0: quantifiers kept; 1: the formula is a proof goal; 2: the formula is an assumption
+	neg    bool // the current subformula has negative polarity in the top formula
 }
+
+// asGoal / asAssumption enable skolemisation: a universal quantifier in a positive position of a
+// goal (an existential one of an assumption) is replaced by a fresh constant, so that heap reads in
+// its body get ground instances of the frame and well-formedness axioms.
+func (s *Scope) asGoal() *Scope       { n := *s; n.skolem, n.neg = 1, false; return &n }
+func (s *Scope) asAssumption() *Scope { n := *s; n.skolem, n.neg = 2, false; return &n }
+func (s *Scope) flip() *Scope         { n := *s; n.neg = !s.neg; return &n }
+func (s *Scope) noSkolem() *Scope     { n := *s; n.skolem = 0; return &n }
 
 func (s *Scope) with(st *State) *Scope {
 	n := *s
@@ -148,10 +160,12 @@ func (s *Scope) eval(e *Expr) *Val {
 	case "old":
 		return s.with(s.old).eval(e.Args[0])
 	case "un":
+		if e.Name == "!" {
+			a := s.flip().eval(e.Args[0])
+			return scalar(Not(a.T), a.Ty)
+		}
 		a := s.eval(e.Args[0])
 		switch e.Name {
-		case "!":
-			return scalar(Not(a.T), a.Ty)
 		case "-":
 			if a.T.Sort == SInt {
 				if a.T.C != nil {
@@ -214,9 +228,12 @@ func (s *Scope) evalBin(e *Expr) *Val {
 	case "||":
 		return scalar(Or(s.evalBool(e.Args[0]), s.evalBool(e.Args[1])), boolT)
 	case "==>":
-		return scalar(Implies(s.evalBool(e.Args[0]), s.evalBool(e.Args[1])), boolT)
+		return scalar(Implies(s.flip().evalBool(e.Args[0]), s.evalBool(e.Args[1])), boolT)
 	case "<==>":
-		return scalar(Eq(s.evalBool(e.Args[0]), s.evalBool(e.Args[1])), boolT)
+		return scalar(Eq(s.noSkolem().evalBool(e.Args[0]), s.noSkolem().evalBool(e.Args[1])), boolT)
+	}
+	if s.skolem != 0 {
+		s = s.noSkolem() // operands of comparisons and arithmetic have no polarity
 	}
 	a, b := s.eval(e.Args[0]), s.eval(e.Args[1])
 	// nil comparisons with slices/interfaces
@@ -376,9 +393,52 @@ func (s *Scope) evalQuant(e *Expr) *Val {
 	}
 	n := s.child()
 	n.vars[e.Var] = v
+	universal := e.Op == "forall"
+	if s.skolem != 0 && c.inQuant == 0 && ((s.skolem == 1) == (universal != s.neg)) {
+		// goal: positive forall / negative exists; assumption: positive exists / negative forall
+		c.decls = append(c.decls, fmt.Sprintf("(declare-const %s %s)", name, sortName))
+		c.addTrig(v.T)
+		body := n.evalBool(e.Args[0])
+		if c.intMode && ty != nil {
+			w, signed, _ := intInfo(ty)
+			lo, hi := typeRange(w, signed)
+			rng := And(ILe(IntLit(lo), v.T), ILe(v.T, IntLit(hi)))
+			if universal {
+				body = Implies(rng, body)
+			} else {
+				body = And(rng, body)
+			}
+		}
+		return scalar(body, types.Typ[types.Bool])
+	}
 	c.inQuant++
-	body := n.evalBool(e.Args[0])
+	c.quantLoads = append(c.quantLoads, nil)
+	body := n.noSkolem().evalBool(e.Args[0])
+	loads := c.quantLoads[len(c.quantLoads)-1]
+	c.quantLoads = c.quantLoads[:len(c.quantLoads)-1]
 	c.inQuant--
+	// patterns: the trigger predicate, and the shortest heap reads that mention the bound variable
+	var cands []Term
+	seenPat := map[string]bool{}
+	for _, l := range loads {
+		if strings.Contains(l.S, name+" ") || strings.Contains(l.S, name+")") {
+			if !seenPat[l.S] && !strings.Contains(l.S, "(ite ") {
+				seenPat[l.S] = true
+				cands = append(cands, l)
+			}
+		} else if len(c.quantLoads) > 0 {
+			// a read that does not depend on this variable may serve an enclosing quantifier
+			c.quantLoads[len(c.quantLoads)-1] = append(c.quantLoads[len(c.quantLoads)-1], l)
+		}
+	}
+	sort.Slice(cands, func(i, j int) bool { return len(cands[i].S) < len(cands[j].S) })
+	if len(cands) > 2 {
+		cands = cands[:2]
+	}
+	pats := " :pattern (" + c.UF(trigName(sortName), SBool, raw(name, sortName)).S + ")"
+	for _, p := range cands {
+		pats += " :pattern (" + p.S + ")"
+	}
 	// type range in int mode
 	if c.intMode && ty != nil {
 		w, signed, _ := intInfo(ty)
@@ -390,7 +450,7 @@ func (s *Scope) evalQuant(e *Expr) *Val {
 			body = And(rng, body)
 		}
 	}
-	return scalar(raw(fmt.Sprintf("(%s ((%s %s)) %s)", e.Op, name, sortName, body.S), SBool), types.Typ[types.Bool])
+	return scalar(raw(fmt.Sprintf("(%s ((%s %s)) (! %s%s))", e.Op, name, sortName, body.S, pats), SBool), types.Typ[types.Bool])
 }
 
 // fieldIndex finds a (possibly promoted) field; returns the index path.
@@ -812,6 +872,27 @@ func (s *Scope) lookup(name string) *Val {
 		return v
 	}
 	if s.fr != nil {
+		if s.anyLoop && s.fr.li != nil {
+			var found *Val
+			n := 0
+			for _, L := range s.fr.li.loops {
+				for _, in := range L.Header.Instrs {
+					p, ok := in.(*ssa.Phi)
+					if !ok {
+						break
+					}
+					if p.Comment == name {
+						if v, ok := s.fr.env[p]; ok {
+							found = v
+							n++
+						}
+					}
+				}
+			}
+			if n == 1 {
+				return found
+			}
+		}
 		if v := s.fr.resolveName(name, s.at, s.loop, s.st); v != nil {
 			return v
 		}
